@@ -147,6 +147,25 @@ def roundtrip_and_chunking(ctx):
                                       f'text {t!r} enc {E} cuts {cuts}: {got!r} != {auto_oneshot!r}', True, {'text': t, 'encoding': E, 'cuts': cuts, 'autodetect': True})
                         break
                     nt.add((t, E, 'auto', len(cuts)))
+            # a fallback encoding that the data may overrule (force=False): the decoder has to keep buffering until the detector has decided
+            for fb in ('iso-8859-1', 'utf-8'):
+                try:
+                    fb_oneshot = C.decode(data, encoding=fb, force=False)[0]
+                except Exception:
+                    continue
+                for cuts in partitions(len(data), min(full_limit, 7)):
+                    chunks = cut(data, cuts)
+                    n += 1
+                    dec = C.IncrementalDecoder(encoding=fb, force=False)
+                    try:
+                        got = ''.join(dec.decode(c, False) for c in chunks) + dec.decode(b'', True)
+                    except Exception as e:
+                        got = f'<{type(e).__name__}: {e}>'
+                    if got != fb_oneshot:
+                        ctx.violation('bounded: IncrementalDecoder with a fallback encoding (force=False) equals the one-shot decoder for every chunking',
+                                      f'text {t!r} enc {E} fallback {fb} cuts {cuts}: {got!r} != {fb_oneshot!r}', True, {'text': t, 'encoding': E, 'fallback': fb, 'cuts': cuts})
+                        break
+                    nt.add((t, E, 'fallback', fb, len(cuts)))
             # incremental encoder on the text
             try:
                 oneshot_b = C.encode(t, encoding=E)[0]
